@@ -457,6 +457,12 @@ func (hash *SexpHash) HashDelete(key Sexp) error {
 			}
 			hash.NumKeys--
 			for j, k := range hash.KeyOrder {
+				// the entry to drop is the one of this bucket: keys that
+				// compare equal but hash differently (['a' 1] and [97 1])
+				// are different keys.
+				if kh, herr := HashExpression(nil, k); herr != nil || kh != hashval {
+					continue
+				}
 				r, err := hash.Env.Compare(k, pair.Head)
 				if err == nil && r == 0 {
 					hash.KeyOrder = append(hash.KeyOrder[:j:j], hash.KeyOrder[j+1:]...)
